@@ -1,6 +1,7 @@
 package types
 
 import (
+	clienttypes "github.com/teleport-network/teleport/x/xibc/core/client/types"
 	"github.com/teleport-network/teleport/x/xibc/exported"
 
 	sdk "github.com/cosmos/cosmos-sdk/types"
@@ -14,7 +15,8 @@ func (h Header) ClientType() string {
 }
 
 func (h Header) GetHeight() exported.Height {
-	return nil
+	// a TSS client has no heights; a typed zero height keeps callers that print or store it from dereferencing nil
+	return clienttypes.Height{}
 }
 
 func (h Header) ValidateBasic() error {
